@@ -40,6 +40,8 @@ type AttemptPlan struct {
 	EnvPanic       bool // the failing handler / table mapper panics instead of returning its error; the application recovers around Stream
 	OpenCk         int  // checksum setting of the dump's opening artificial ROTATE (see simMaster.openCk)
 	SetErrVariant  int  // set-error: shape of the master's reply
+	IdleAt         int  // with IdleFor > 0: the master falls silent for IdleFor (fake clock) once IdleAt packets of the dump have been delivered, then goes on
+	IdleFor        time.Duration
 	SkipRefused    bool // the application skips the transaction its handler refused in the previous attempt: SetBinlogPosition(refused.NextPosition)
 	HandshakeCut   int  // handshake-fin: bytes of the greeting that still arrive
 	ErrorCalls     int  // how many times Error() is called after Stream returned (>=1)
@@ -98,6 +100,7 @@ type AttemptResult struct {
 	MapperCalls               []*MapperCall
 	PacketsTotal              int
 	PacketsDeliv              int
+	Idled                     time.Duration
 	EnvPanicked               bool
 	PacketsAtCause            int // packets delivered when the first cause fired (final count if none did)
 	Steps                     int
@@ -797,6 +800,7 @@ func (r *Run) runAttempt(idx int, plan AttemptPlan) bool {
 	r.debugYield = plan.DebugYield
 	r.mu.Unlock()
 	immediateDone := false
+	idled := false
 	call := r.launch(func() {
 		err := func() (err error) {
 			if plan.EnvPanic {
@@ -1057,6 +1061,17 @@ func (r *Run) runAttempt(idx int, plan AttemptPlan) bool {
 		if plan.Stop == stopTimeout && dumping && !causeFired && wire == 0 && h == nil && m == nil {
 			fire("read-timeout")
 			time.Sleep(31 * time.Second)
+			continue
+		}
+
+		// ---- a quiet master --------------------------------------------------
+		if plan.IdleFor > 0 && !idled && dumping && !sc.ReadTimeout && !causeFired && wire > 0 && h == nil && m == nil &&
+			conn.isReading() && r.parkedLogCount() == 0 && master.packetsDelivered() >= plan.IdleAt {
+			// nothing to send for minutes or hours (no heartbeats were requested); the
+			// clock of the bubble advances because everything is blocked
+			idled = true
+			att.Idled = plan.IdleFor
+			time.Sleep(plan.IdleFor)
 			continue
 		}
 
